@@ -187,13 +187,17 @@ def fold_crc(prog, f, octets, kind):
     if len(ps) < 1:
         raise AnalysisError('Armorable.crc24 takes no data argument')
     p = ps[0]
+    data = Const({'bytes': bytes, 'bytearray': bytearray}[kind](octets))
     vals = [Const(o) for o in octets]
-    data = Sym(p, types={kind}, nonnull=True)
+    t = render(data)
     unroll = {}
-    for t in (p, 'iter(%s)' % p, 'bytearray(%s)' % p, 'bytes(%s)' % p, 'memoryview(%s)' % p, 'list(%s)' % p):
-        unroll[t] = vals
+    for k in (t, 'iter(%s)' % t, 'bytearray(%s)' % t, 'bytes(%s)' % t, 'memoryview(%s)' % t, 'list(%s)' % t):
+        unroll[k] = vals
     sc = Scenario(args={p: data}, unroll=unroll, inline=noinline)
-    outs = [s for s in Interp(prog, sc).run(f)]
+    try:
+        outs = [s for s in Interp(prog, sc).run(f)]
+    except AnalysisError:
+        return None
     if len(outs) != 1 or outs[0].raised is not None or not isinstance(outs[0].ret, Const) or isinstance(outs[0].ret.value, bool) or \
             not isinstance(outs[0].ret.value, int):
         return None
@@ -487,6 +491,33 @@ def kind_checks(rep, prog):
 
 
 # ------------------------------------------------------------------------------------------------ C10.6 / C10.7 reader
+def expand_skeleton(sk):
+    """A decision skeleton in which opaque atoms that are themselves boolean terms (a comparison kept in a local and tested later)
+    are opened up: ('expr', '(a != b)') -> ('cmp', '!=', 'a', 'b')."""
+    if sk is None:
+        return None
+    if sk[0] == 'not':
+        return ('not', expand_skeleton(sk[1]))
+    if sk[0] in ('and', 'or'):
+        return (sk[0], [expand_skeleton(x) for x in sk[1]])
+    if sk[0] == 'expr':
+        node = T.parse_term(sk[1])
+        if node is not None:
+            return _term_skeleton(node, sk)
+    return sk
+
+
+def _term_skeleton(node, orig):
+    if isinstance(node, ast.UnaryOp) and isinstance(node.op, ast.Not):
+        return ('not', _term_skeleton(node.operand, ('expr', T.show(node.operand))))
+    if isinstance(node, ast.BoolOp):
+        return ('or' if isinstance(node.op, ast.Or) else 'and', [_term_skeleton(v, ('expr', T.show(v))) for v in node.values])
+    if isinstance(node, ast.Compare) and len(node.ops) == 1:
+        ops = {ast.Eq: '==', ast.NotEq: '!=', ast.Is: 'is', ast.IsNot: 'is not', ast.In: 'in', ast.NotIn: 'not in', ast.Lt: '<', ast.LtE: '<=', ast.Gt: '>', ast.GtE: '>='}
+        return ('cmp', ops[type(node.ops[0])], T.show(node.left), T.show(node.comparators[0]))
+    return orig
+
+
 def _ascii_oracle(t):
     return True if re.search(r'\bis_ascii\(', t) else None
 
@@ -535,6 +566,7 @@ def reader(rep, prog, A, writer_sep):
     for s in crc_paths:
         hit = None
         for t, val, sk in s.facts:
+            sk = expand_skeleton(sk)
             for a in atoms(sk):
                 if a[0] == 'cmp' and a[1] in ('==', '!=') and _crc_sides(a[2], a[3]):
                     hit = (t, val, sk, a)
